@@ -73,7 +73,7 @@ class PGen:
         k = self.rng.choice(["leaf", "comma", "comma", "comma", "pipe", "iter", "bind", "if", "alt", "try", "foreach",
                              "reduce", "recdef", "repeat", "recurse", "range", "range0", "limit", "first", "param",
                              "label", "pathidx", "error", "inputs", "input", "update", "interp", "obj", "math", "neg",
-                             "recinf", "skip", "closure", "and"])
+                             "recinf", "skip", "closure", "and", "pathmode", "pathmode"])
         self.kinds.add(k)
         f = getattr(self, "p_" + k)
         return f(depth + 1)
@@ -169,6 +169,67 @@ class PGen:
         src = self.rng.choice([base, A.pipe(self.marker(), base), ("comma", base, base)])
         idx = A.pipe(self.marker(), self.rng.choice([n(0), ("comma", n(0), n(1)), n(2)]))
         return ("path", src, ((("index", idx), False),))
+
+    # ---- path mode: the same laziness must hold when a filter is run for its paths (path(f), paths, pick ...) ----
+    def mmark(self):
+        i = self.next_id
+        self.next_id += 1
+        return ("call", "mark", (n(i),))          # `mark` is transparent for paths (`bomb` is run-only)
+
+    def pmarked(self, t):
+        r = self.rng.random()
+        if r < 0.4:
+            return A.pipe(t, self.mmark())
+        if r < 0.75:
+            return A.pipe(self.mmark(), t)
+        if r < 0.85:
+            return A.pipe(self.mmark(), A.pipe(t, self.mmark()))
+        return t
+
+    def pp(self, d):
+        """a path expression with markers"""
+        self.budget -= 1
+        leaf = lambda: self.pmarked(self.rng.choice([A.key(ID, "a"), A.key(ID, "b"), A.index(ID, n(0)), A.key(ID, "n", True),
+                                                     ("call", "getpath", (("arr", A.string("b")),))]))
+        if self.budget <= 0 or d > 4:
+            return leaf()
+        k = self.rng.choice(["leaf", "comma", "comma", "comma", "pipe", "if", "alt", "first", "limit", "try", "label", "recurse", "bind"])
+        if k == "leaf":
+            return leaf()
+        if k == "comma":
+            return ("comma", self.pp(d + 1), self.pp(d + 1))
+        if k == "pipe":
+            return A.pipe(self.pp(d + 1), self.pmarked(("comma", A.key(ID, "c", True), A.key(ID, "d", True))))
+        if k == "if":
+            cond = A.pipe(self.mmark(), ("comma", A.call("true"), A.call("false")))
+            return ("if", ((cond, self.pp(d + 1)),), self.pp(d + 1))
+        if k == "alt":
+            return ("alt", self.pp(d + 1), self.pp(d + 1))
+        if k == "first":
+            return ("call", "first", (self.pp(d + 1),))
+        if k == "limit":
+            return ("call", "limit", (n(self.rng.choice(["1", "2"])), self.pp(d + 1)))
+        if k == "try":
+            return ("try", ("comma", self.pp(d + 1), ("comma", A.pipe(self.mmark(), ("call", "error", (A.string("e"),))), self.pp(d + 1))), None)
+        if k == "label":
+            return ("label", "$p", ("comma", self.pp(d + 1), ("comma", A.pipe(self.mmark(), ("break", "$p")), self.pp(d + 1))))
+        if k == "bind":
+            return A.bind(("comma", n(0), n(1)), ("pvar", "$i"), self.pmarked(A.pipe(A.key(ID, "x"), A.index(ID, A.var("$i")))))
+        return A.pipe(self.pp(d + 1), ("call", "recurse", (self.pmarked(A.key(ID, "c", True)),)))
+
+    def p_pathmode(self, d):
+        c = lambda v: ("obj", ((A.string("c"), v), (A.string("d"), A.call("null"))))
+        base = ("obj", ((A.string("a"), c(n(1))), (A.string("b"), c(("obj", ((A.string("c"), n(2)),)))), (A.string("n"), A.call("null")),
+                        (A.string("x"), ("arr", ("comma", c(n(3)), c(n(4)))))))
+        inner = self.pp(0)
+        w = self.rng.random()
+        if w < 0.75:
+            t = ("call", "path", (inner,))
+        elif w < 0.9:
+            t = ("call", "path", (("call", "first", (inner,)),))
+        else:
+            t = A.pipe(("call", "path", (inner,)), self.marked(("call", "length", ())))
+        return A.pipe(base, t)
 
     def p_error(self, d):
         return ("comma", self.prod(d), A.pipe(self.marker(), ("call", "error", (A.string("x"),))))
